@@ -110,6 +110,7 @@ class C06(Prop):
                 targets = targets + ["m"]
             cases.append({"cols": cols, "index": idx, "form": form, "targets": targets,
                           "fail_unit": rng.choice([None, None, None, "mm", "g"]), "pint": i % 8 == 7,
+                          "default": rng.choice(["none", "none", "other", "only"]),
                           "extra_dict": rng.random() < 0.3})
         return cases
 
@@ -159,15 +160,25 @@ class C06(Prop):
         else:
             conv = make_converter(case["fail_unit"])
         obs = {"before": before}
+        import pdtable.units
+
+        mode = case.get("default", "none") if not case["pint"] else "none"
+        old_default = pdtable.units.default_converter
         try:
+            if mode == "other":
+                pdtable.units.default_converter = make_converter(None, shift=1000.0)   # must never be used
+            elif mode == "only":
+                pdtable.units.default_converter = conv
             with warnings.catch_warnings():
                 warnings.simplefilter("ignore")
-                r = t.convert_units(self._to(case), conv)
+                r = t.convert_units(self._to(case), None if mode == "only" else conv)
             obs["result"] = snapshot(r)
             obs["same_object"] = r is t or r.df is t.df
         except Exception as e:
             obs["error"] = type(e).__name__
             obs["error_text"] = str(e)[:150]
+        finally:
+            pdtable.units.default_converter = old_default
         obs["after"] = snapshot(t)
         # what the converter itself gives for each column and target (ground truth for the oracle and
         # the lookup table of the model)
